@@ -197,6 +197,27 @@ fn replay(c: &Value) -> Option<(String, String)> {
             let s = c["s"].as_str()?;
             check_string(s).map(|(k, w)| (format!("{k} s={s:?}"), w))
         }
+        "stream-de" => {
+            let bytes: Vec<u8> = serde_json::from_value(c["model"].clone()).ok()?;
+            let ws = c["wsconst"].as_str()?;
+            let name = c["name"].as_str()?;
+            let text = c["text"].as_str()?;
+            let pred = Predictor::new(Model::read_slice(&bytes).ok()?.0, false).ok()?;
+            let mut ser = pred.serialize_to_vec().ok()?;
+            ser.extend_from_slice(b"TAIL");
+            let ser: &'static [u8] = Box::leak(ser.into_boxed_slice());
+            let class = if text.contains('\0') { "text-with-NUL".to_string() } else { format!("text={text:?}") };
+            match guard(|| unsafe { VaporettoTokenizer::deserialize_unchecked(ser, ws) }.map(|(t, rest)| (t, rest.to_vec())).map_err(|e| e.to_string())) {
+                Err(p) => Some((format!("deserialize-panic model={name} wsconst={ws:?}"), p)),
+                Ok(Err(e)) => Some((format!("deserialize-err model={name} wsconst={ws:?}"), e)),
+                Ok(Ok((mut tk, rest))) => {
+                    if rest != b"TAIL" {
+                        return Some((format!("deserialize-rest model={name} wsconst={ws:?}"), format!("rest of {} bytes", rest.len())));
+                    }
+                    check_stream(&mut tk, &pred, &filters_for(ws), text).map(|(k, w)| (format!("{k}-deserialized model={name} wsconst={ws:?} {class}"), w))
+                }
+            }
+        }
         "stream-history" => {
             let bytes: Vec<u8> = serde_json::from_value(c["model"].clone()).ok()?;
             let ws = c["wsconst"].as_str()?;
@@ -296,6 +317,27 @@ fn main() {
         };
         let pred = Predictor::new(mk(), false).unwrap_or_else(|e| machinery_error(&e.to_string()));
         let filters = filters_for(ws);
+        // the second constructor: a tokenizer deserialised from the serialised predictor (+ a tail that must come back)
+        let ser = pred.serialize_to_vec().unwrap_or_else(|e| machinery_error(&e.to_string()));
+        let mut ser_tail = ser.clone();
+        ser_tail.extend_from_slice(b"TAIL");
+        let ser_tail: &'static [u8] = Box::leak(ser_tail.into_boxed_slice());
+        let tk_de = match guard(|| unsafe { VaporettoTokenizer::deserialize_unchecked(ser_tail, ws) }.map(|(t, rest)| (t, rest.to_vec())).map_err(|e| e.to_string())) {
+            Ok(Ok((t, rest))) => {
+                if rest != b"TAIL" {
+                    chk.violation(format!("deserialize-rest model={name} wsconst={ws:?}"), format!("deserialize_unchecked returned a rest of {} bytes instead of the 4 trailing bytes", rest.len()), json!({"kind": "stream-de", "name": name, "model": bytes, "wsconst": ws, "text": "a"}));
+                }
+                Some(t)
+            }
+            Ok(Err(e)) => {
+                chk.violation(format!("deserialize-err model={name} wsconst={ws:?}"), format!("deserialize_unchecked rejected a self-produced predictor: {e}"), json!({"kind": "stream-de", "name": name, "model": bytes, "wsconst": ws, "text": "a"}));
+                None
+            }
+            Err(p) => {
+                chk.violation(format!("deserialize-panic model={name} wsconst={ws:?}"), p, json!({"kind": "stream-de", "name": name, "model": bytes, "wsconst": ws, "text": "a"}));
+                None
+            }
+        };
         // every model sees every text with the short wsconst strings; long ones rotate over texts
         let stride = if ws.len() <= 1 || tier == Tier::Thorough && ws.len() <= 2 { 1 } else { tier.pick(7, 5) };
         for text in texts.iter().skip(ws.len() % stride).step_by(stride) {
@@ -309,6 +351,14 @@ fn main() {
                 // class-level signature: NUL-bearing texts are one class
                 let class = if text.contains('\0') { "text-with-NUL".to_string() } else { format!("text={text:?}") };
                 chk.violation(format!("{k} model={name} wsconst={ws:?} {class}"), what, json!({"kind": "stream", "name": name, "model": bytes, "wsconst": ws, "text": text}));
+            }
+            if let Some(t0) = &tk_de {
+                chk.eval(1);
+                let mut tk = t0.clone();
+                if let Some((k, what)) = check_stream(&mut tk, &pred, &filters, text) {
+                    let class = if text.contains('\0') { "text-with-NUL".to_string() } else { format!("text={text:?}") };
+                    chk.violation(format!("{k}-deserialized model={name} wsconst={ws:?} {class}"), format!("tokenizer from deserialize_unchecked: {what}"), json!({"kind": "stream-de", "name": name, "model": bytes, "wsconst": ws, "text": text}));
+                }
             }
         }
     });
@@ -349,7 +399,7 @@ fn main() {
     chk.assume("for texts the core pipeline rejects (NUL) only the structural laws (tiling, substrings, positions, no panic) are required");
     let replay_fn = |c: &Value| replay(c);
     chk.finish(
-        "normaliser: all 1 112 064 Unicode scalar values (one character out, golden table or identity, idempotent) and all strings up to the bound over 8 table + 4 non-table characters; token stream: 4 models x texts up to the bound over {a,1,A,あ,亜,-,CR,LF,ZWJ,👨,𠀋,NUL} and the empty text x wsconst strings over {D,R,H,T,K,O,G} (all texts for short wsconst strings, a rotating 1/7 resp. 1/5 of the texts for the longest); tokens must tile the original text on character boundaries with original substrings and consecutive positions, and break exactly where normalise+predict+line-break filter+configured filters break; consumers rewriting token.text see the same tokens; every ordered pair of texts over half-/full-width spellings streamed back to back on one tokenizer; non-trivial = table character / text of >= 2 characters; distinct by construction",
+        "normaliser: all 1 112 064 Unicode scalar values (one character out, golden table or identity, idempotent) and all strings up to the bound over 8 table + 4 non-table characters; token stream: 4 models x texts up to the bound over {a,1,A,あ,亜,-,CR,LF,ZWJ,👨,𠀋,NUL} and the empty text x wsconst strings over {D,R,H,T,K,O,G} (all texts for short wsconst strings, a rotating 1/7 resp. 1/5 of the texts for the longest); tokens must tile the original text on character boundaries with original substrings and consecutive positions, and break exactly where normalise+predict+line-break filter+configured filters break; consumers rewriting token.text see the same tokens; every ordered pair of texts over half-/full-width spellings streamed back to back on one tokenizer; every text also through a tokenizer built by deserialize_unchecked from the serialised predictor; non-trivial = table character / text of >= 2 characters; distinct by construction",
         true,
         &replay_fn,
     )
